@@ -411,13 +411,11 @@ func gobDecodeItem(data []byte) (Item, error) {
 	typ := ActivityVocabularyType("")
 	mm, err := gobDecodeObjectAsMap(data)
 	if err == nil {
-		var sTyp []byte
-		sTyp, isObject = mm["type"]
-		if isObject {
+		if sTyp, hasType := mm["type"]; hasType {
 			typ = ActivityVocabularyType(sTyp)
-		} else {
-			_, isObject = mm["id"]
 		}
+		// NOTE: embedded objects may lack both type and id, any property map that holds something is an object
+		isObject = len(mm) > 0
 	}
 	if isObject {
 		it, err := ItemTyperFunc(typ)
